@@ -3,6 +3,7 @@ import Karp.Model.WeightOrder
 import Karp.Model.PriceOrder
 import Karp.Model.FirstSuccess
 import Karp.Model.ReservedFallback
+import Karp.Model.PoolFilter
 import Karp.Spec.WeightPrice
 import Karp.Spec.PoolPass
 
@@ -206,13 +207,33 @@ def parseLabels (j : Json) : Except String (List (String × String)) :=
   | .null => pure []
   | _ => .error "labels: object expected"
 
+def parseConds (j : Json) : Except String (Option (List (String × String))) :=
+  match fldOpt j "conds" with
+  | none => pure none
+  | some Json.null => pure none
+  | some c => do
+    let cs ← (← asArr c).mapM (fun x => do pure ((← strF x "type"), (← strF x "status")))
+    if !noDuplicates (cs.map (·.1)) then throw "a condition type stored twice is outside the model (the list is keyed by type)"
+    if !cs.all (fun c => ["True", "False", "Unknown"].contains c.2) then throw "condition status outside True/False/Unknown"
+    pure (some cs)
+
 def parsePool (j : Json) : Except String PPool := do
   pure { name := ← strF j "name", weight := (← intO j "weight").getD 0,
          ready := ← boolF j "ready", static := ← boolF j "static", deleting := ← boolF j "deleting",
          reqs := ← parseReqs j "reqs",
          labels := ← parseLabels ((fldOpt j "labels").getD Json.null),
          taints := ← (do strList ((fldOpt j "taints").getD (Json.arr #[]))),
-         types := ← (← arrD j "types").mapM parsePType }
+         types := ← (← arrD j "types").mapM parsePType,
+         conds := ← parseConds j }
+
+/-- the model's side of "which pools become templates": the filter closure of `Provisioner.NewScheduler`
+    (`Model/PoolFilter.eligible`) on the stored conditions; without a condition list the `ready` flag stands for
+    a stored `Ready` condition with that status -/
+def modelEligible (p : PPool) : Bool :=
+  let conds : List Karp.PoolFilter.Cond := match p.conds with
+    | some cs => cs.map (fun c => { type := c.1, status := c.2 })
+    | none => [{ type := Karp.PoolFilter.readyType, status := if p.ready then "True" else "False" }]
+  Karp.PoolFilter.eligible { conds := conds, static := p.static, deleting := p.deleting }
 
 def parsePod (j : Json) : Except String PPod := do
   let sel ← parseReqs j "sel"
@@ -226,7 +247,7 @@ def parseClaim (j : Json) : Except String Claim := do
 /-- the model's prediction for a pod that needs a new node: the usable pools in `OrderByWeight` order, one outcome per
     template, the sequential first success (C19_first_success: every schedule gives the same) -/
 def modelPool (pools : List PPool) (pod : PPod) : Option String :=
-  let usablePools := pools.filter poolUsable
+  let usablePools := pools.filter modelEligible
   let keyed := usablePools.map (fun p => ({ name := bytesOf p.name, weight := p.weight } : Pool))
   let ordered := orderByWeight keyed
   let poolOf (k : Pool) : Option PPool := usablePools.find? (fun p => bytesOf p.name == k.name)
